@@ -4,7 +4,10 @@
        these equations fail, while Model/Counters.v and the judge still build and follow the edited source.
    C2  the flat family of Props/C06.v: for EVERY count vector over Z the walk is the closed form Spec/CountersWf.zflat_nav
        (port of Part 1 of Proofs/OdoStreamP.v; the record enters only through the counter fields).
-   C3  the item after a table; negative counters; the refutation witness; non-negative count vectors. *)
+   C3  the item after a table; negative counters; the refutation witness; non-negative count vectors.
+   Everything is proved for the walk WITH A FLAG negref (is a negative item count refused): negref = false is the walk before
+   the fix of finding K-negative-counter (the _old statements), negref = true the repaired one; negref_now says which one the
+   source has now - it is proved by computation from Gen/LayoutParams.v and is the lemma that breaks when the guard goes. *)
 From Coq Require Import ZArith NArith List Bool Lia Arith.
 Import ListNotations.
 Require Import SR.Base.Res SR.Spec.Layout SR.Model.LayoutRule SR.Gen.LayoutParams SR.Model.Layout SR.Spec.OdoStream.
@@ -44,12 +47,17 @@ Proof. intros Hs Hz. unfold zmk_size. destruct (s + z =? 0) eqn:E; [apply Z.eqb_
 Lemma zmk_end_nonneg s z : 0 <= s -> 0 <= z -> zmk_end s (s + z) = s + z.
 Proof. intros Hs Hz. unfold zmk_end. destruct (s + z =? 0) eqn:E; [apply Z.eqb_eq in E|]; lia. Qed.
 
+(* the source as it is now refuses a negative item count *)
+Lemma negref_now : odo_negative_refused = true.
+Proof. reflexivity. Qed.
+
 Section ZW.
   Variable B : Type.
+  Variable negref : bool.
   Variable zdec : list B -> res Z.
   Variable r : list B.
-  Notation zwalk := (Counters.zwalk zdec r).
-  Notation zwalk_props := (Counters.zwalk_props zdec r).
+  Notation zwalk := (Counters.zwalk_with negref zdec r).
+  Notation zwalk_props := (Counters.zwalk_props_with negref zdec r).
 
   Lemma zwalk_atom a sz st an : zwalk (JAtom a sz) st an = Ok (zatom st sz, zreg a (zatom st sz) an).
   Proof.
@@ -102,6 +110,7 @@ Section ZW.
     match zodo_count zdec r c an with
     | Err e => Err e
     | Ok cnt =>
+        if negref && (cnt <? 0) then Err ValueError else
         match zwalk its st an with
         | Err e => Err e
         | Ok (sub, an1) => Ok (ztab st (zsize sub) cnt sub its, zreg a (ztab st (zsize sub) cnt sub its) an1)
@@ -112,6 +121,7 @@ Section ZW.
       with (match zodo_count zdec r c an with
             | Err e => Err e
             | Ok cnt =>
+                if negref && (cnt <? 0) then Err ValueError else
                 match zwalk its st an with
                 | Err e => Err e
                 | Ok (sub, an1) =>
@@ -121,6 +131,7 @@ Section ZW.
                 end
             end).
     destruct (zodo_count zdec r c an) as [cnt|ex]; [|reflexivity].
+    destruct (negref && (cnt <? 0)); [reflexivity|].
     destruct (zwalk its st an) as [[sub an1]|ex]; [|reflexivity]. cbv zeta.
     rewrite zinit_start_eq, zinit_end_eq, zinit_size_eq. reflexivity.
   Qed.
@@ -159,7 +170,7 @@ Section ZW.
   Proof. reflexivity. Qed.
 
   Lemma znav_of_unf s :
-    znav_of zdec r s = match zwalk s 0 [] with Ok (l, an) => Ok (mkznav l an) | Err e => Err e end.
+    znav_of_with negref zdec r s = match zwalk s 0 [] with Ok (l, an) => Ok (mkznav l an) | Err e => Err e end.
   Proof. reflexivity. Qed.
 
   Lemma znav_name_unf v k :
@@ -177,7 +188,7 @@ Section ZW.
 
   (* NDNav.index: if index < 0 or index >= item_count: raise IndexError *)
   Lemma znav_index_unf v i :
-    znav_index zdec r v i =
+    znav_index_with negref zdec r v i =
     match zn_loc v with
     | ZArr st _ _ isz cnt _ sch =>
         if (i <? 0) || (cnt <=? i) then Err IndexError
@@ -196,10 +207,11 @@ Lemma key_eqb_name a b : key_eqb (KName a) (KName b) = N.eqb a b.
 Proof. reflexivity. Qed.
 
 Section Flat.
+  Variable negref : bool.
   Variable zdec : list N -> res Z.
   Variable r : list N.
-  Notation zwalk := (Counters.zwalk zdec r).
-  Notation zwalk_props := (Counters.zwalk_props zdec r).
+  Notation zwalk := (Counters.zwalk_with negref zdec r).
+  Notation zwalk_props := (Counters.zwalk_props_with negref zdec r).
 
   Lemma kid_alts_cons tg x xs : kid_alts tg (ICons x xs) = (item_id x, union_of tg x, build_alt x) :: kid_alts tg xs.
   Proof. reflexivity. Qed.
@@ -281,16 +293,20 @@ Section Flat.
     forall c, In c earlier ->
       exists o en sz, zlookup (KName c) an = Some (ZAtom o en sz) /\ (P c -> zdec (pyslice r o en) = Ok (ze c)).
 
+  Definition neg_oc (oc : occ) : bool := match oc with Odo c => ze c <? 0 | _ => false end.
+
   Lemma zoc_ok_count earlier an oc : oc_ok earlier oc = true -> zan_ok earlier an ->
     (match oc with Odo c => P c | _ => True end) ->
     forall a its st sub an1, zwalk its st an = Ok (sub, an1) ->
     zwalk (match oc with Odo c => JOdo a c its | Times n => JArr a n its | Once => its end) st an
-    = Ok (ztab st (zsize sub) (zcount oc) sub its, zreg a (ztab st (zsize sub) (zcount oc) sub its) an1).
+    = if negref && neg_oc oc then Err ValueError
+      else Ok (ztab st (zsize sub) (zcount oc) sub its, zreg a (ztab st (zsize sub) (zcount oc) sub its) an1).
   Proof.
     intros Hoc Han HP a its st sub an1 Hw. destruct oc as [|n|c]; cbn [oc_ok] in Hoc; [discriminate| |].
-    - rewrite zwalk_arr, Hw. reflexivity.
+    - rewrite zwalk_arr, Hw. cbn [neg_oc]. rewrite andb_false_r. reflexivity.
     - apply SR.Proofs.OdoStreamP.mem_In in Hoc. destruct (Han c Hoc) as (o & en & sz & Hl & Hd).
-      rewrite zwalk_odo, zodo_count_unf, Hl, (Hd HP), Hw. reflexivity.
+      rewrite zwalk_odo, zodo_count_unf, Hl, (Hd HP). cbn [neg_oc zcount].
+      destruct (negref && (ze c <? 0)); [reflexivity|]. rewrite Hw. reflexivity.
   Qed.
 
   Lemma build_table_elem i sz oc : oc <> Once ->
@@ -310,16 +326,19 @@ Section Flat.
   Lemma zwalk_flat_kid earlier x off an :
     flat_kid earlier x = true -> zan_ok earlier an ->
     (match item_oc x with Odo c => P c | _ => True end) ->
-    zwalk (build_alt x) off an = Ok (zfloc x off, match x with
-                                                  | Elem _ _ Once _ => zreg (Some (KName (item_id x))) (zfloc x off) an
-                                                  | Elem _ _ _ _ => zocc_anch x off an
-                                                  | Group g _ _ _ => zreg (Some (KName g)) (zfloc x off) (zocc_anch x off an)
-                                                  end).
+    zwalk (build_alt x) off an =
+    if negref && neg_count ze x then Err ValueError
+    else Ok (zfloc x off, match x with
+                          | Elem _ _ Once _ => zreg (Some (KName (item_id x))) (zfloc x off) an
+                          | Elem _ _ _ _ => zocc_anch x off an
+                          | Group g _ _ _ => zreg (Some (KName g)) (zfloc x off) (zocc_anch x off an)
+                          end).
   Proof.
-    intros Hf Han HP. destruct x as [i sz oc rd|g oc rd gks]; cbn [flat_kid] in Hf.
+    intros Hf Han HP. unfold neg_count. fold (neg_oc (item_oc x)).
+    destruct x as [i sz oc rd|g oc rd gks]; cbn [flat_kid] in Hf.
     - destruct rd as [t|]; [destruct oc; discriminate|].
       destruct oc as [|n|c] eqn:Eoc.
-      + cbn [build_alt]. rewrite zwalk_atom. reflexivity.
+      + cbn [build_alt item_oc neg_oc]. rewrite zwalk_atom, andb_false_r. reflexivity.
       + rewrite build_table_elem by discriminate.
         pose proof (zoc_ok_count earlier an (Times n) Hf Han I None _ off _ _
                       (zwalk_items (Elem i sz (Times n) None) off an eq_refl)) as Hw.
@@ -357,18 +376,25 @@ Section Flat.
     zan_ok earlier an ->
     zholds ks off ->
     (forall c, In c (counters_of ks) -> P c) ->
-    zwalk_props (plain (kid_alts [] ks)) off an = Ok (zfprops ks off, zfend ks off, zfanch ks off an).
+    zwalk_props (plain (kid_alts [] ks)) off an =
+    if negref && has_neg ze ks then Err ValueError else Ok (zfprops ks off, zfend ks off, zfanch ks off an).
   Proof.
-    induction ks as [|x xs IH]; intros earlier off an Hf Hdis Hnd Han Hh HP; [reflexivity|].
+    induction ks as [|x xs IH]; intros earlier off an Hf Hdis Hnd Han Hh HP; [cbn [has_neg]; rewrite andb_false_r; reflexivity|].
     cbn [flat_kids] in Hf. apply andb_prop in Hf as [Hx Hxs].
     cbn [CountersWf.zholds] in Hh. destruct Hh as [Hhx Hhxs].
     cbn [all_ids] in Hnd, Hdis.
     rewrite kid_alts_cons, plain_cons, zwalk_props_cons.
     rewrite (zwalk_flat_kid earlier x off an Hx Han).
     2:{ destruct (item_oc x) as [|n|c] eqn:Eoc; [exact I|exact I|]. apply HP. cbn [counters_of]. rewrite Eoc. left. reflexivity. }
+    cbn [has_neg].
+    destruct (negref && neg_count ze x) eqn:Eneg.
+    { apply andb_prop in Eneg as [-> ->]. reflexivity. }
+    assert (Erest : negref && (neg_count ze x || has_neg ze xs) = negref && has_neg ze xs)
+      by (destruct negref, (neg_count ze x); try discriminate; reflexivity).
+    rewrite Erest.
     rewrite (zanch_step earlier x off an Hx). fold (zfsz x off).
     rewrite (IH (if plain_elem x then item_id x :: earlier else earlier) (off + zfsz x off) (zfanch1 x off an)).
-    + reflexivity.
+    + destruct (negref && has_neg ze xs); reflexivity.
     + exact Hxs.
     + intros c Hc Hin.
       assert (Hc' : In c earlier \/ (plain_elem x = true /\ c = item_id x)).
@@ -392,22 +418,36 @@ Section Flat.
   Qed.
 End Flat.
 
-(* the whole record: for EVERY count vector over Z the navigator is the closed form *)
-Lemma znav_flat (zdec : list N -> res Z) (ze : id -> Z) t r :
+(* the whole record, for EVERY count vector over Z: the navigator is the closed form - or, when negative counts are refused
+   and some table's counter is negative, ValueError *)
+Lemma znav_flat_with (negref : bool) (zdec : list N -> res Z) (ze : id -> Z) t r :
   flat_odo t = true -> zcounters_hold zdec ze t r ->
-  znav_of zdec r (build t) = Ok (zflat_nav ze t).
+  znav_of_with negref zdec r (build t) =
+  if negref && has_neg ze (item_kids t) then Err ValueError else Ok (zflat_nav ze t).
 Proof.
   intros Hf Hc. destruct (SR.Proofs.OdoStreamP.flat_odo_inv t Hf) as (i0 & rd & kids & -> & Hk & Hnd).
   cbn [zcounters_hold] in Hc. rewrite (SR.Proofs.OdoStreamP.build_flat i0 rd kids Hk).
   rewrite znav_of_unf, zwalk_obj.
-  rewrite (zwalk_flat_kids zdec r ze (fun c => In c (counters_of kids)) kids [] 0 [] Hk).
-  - reflexivity.
+  rewrite (zwalk_flat_kids negref zdec r ze (fun c => In c (counters_of kids)) kids [] 0 [] Hk).
+  - cbn [item_kids]. destruct (negref && has_neg ze kids); reflexivity.
   - intros c [].
   - exact Hnd.
   - intros c [].
   - exact Hc.
   - intros c Hin. exact Hin.
 Qed.
+
+(* before the fix (no sign test): the closed form, always *)
+Lemma znav_flat_old (zdec : list N -> res Z) (ze : id -> Z) t r :
+  flat_odo t = true -> zcounters_hold zdec ze t r ->
+  znav_of_with false zdec r (build t) = Ok (zflat_nav ze t).
+Proof. intros Hf Hc. rewrite (znav_flat_with false zdec ze t r Hf Hc). reflexivity. Qed.
+
+(* the source as it is now *)
+Lemma znav_flat_now (zdec : list N -> res Z) (ze : id -> Z) t r :
+  flat_odo t = true -> zcounters_hold zdec ze t r ->
+  znav_of zdec r (build t) = if has_neg ze (item_kids t) then Err ValueError else Ok (zflat_nav ze t).
+Proof. intros Hf Hc. unfold znav_of. rewrite negref_now. apply (znav_flat_with true zdec ze t r Hf Hc). Qed.
 
 (* ================================================================== C3: the item after a table *)
 
@@ -423,9 +463,6 @@ Proof.
   - split; [left; reflexivity|right; left; reflexivity].
   - destruct (IH x y H) as [H1 H2]. split; right; assumption.
 Qed.
-
-Fixpoint in_items (x : item) (ks : items) : Prop :=
-  match ks with INil => False | ICons a tl => a = x \/ in_items x tl end.
 
 Lemma consecutive_in_items : forall ks x y, consecutive ks x y -> in_items x ks /\ in_items y ks.
 Proof.
@@ -543,10 +580,28 @@ Proof.
   - apply IH. apply SR.Proofs.OdoStreamP.NoDup_app_r in H. exact H.
 Qed.
 
-(* what the code does with the item that follows a table, for every value of the counter *)
-Lemma after_table (zdec : list N -> res Z) (ze : id -> Z) t r :
-  flat_odo t = true -> zcounters_hold zdec ze t r ->
-  exists v, znav_of zdec r (build t) = Ok v
+(* ---- has_neg: some table's counter is negative *)
+Lemma has_neg_false ze : forall ks, has_neg ze ks = false -> forall c, In c (counters_of ks) -> 0 <= ze c.
+Proof.
+  induction ks as [|x xs IH]; intros H c Hc; [destruct Hc|].
+  cbn [has_neg] in H. apply orb_false_elim in H as [Hx Hxs]. cbn [counters_of] in Hc. unfold neg_count in Hx.
+  destruct (item_oc x) as [|n|c']; try (apply (IH Hxs c Hc)).
+  destruct Hc as [<-|Hc]; [apply Z.ltb_ge in Hx; exact Hx|apply (IH Hxs c Hc)].
+Qed.
+
+Lemma has_neg_true ze : forall ks x c, in_items x ks -> item_oc x = Odo c -> ze c < 0 -> has_neg ze ks = true.
+Proof.
+  induction ks as [|a tl IH]; intros x c Hin Hoc Hneg; [destruct Hin|].
+  cbn [has_neg]. destruct Hin as [->|Hin].
+  - unfold neg_count. rewrite Hoc. apply Z.ltb_lt in Hneg. rewrite Hneg. reflexivity.
+  - rewrite (IH x c Hin Hoc Hneg). apply orb_true_r.
+Qed.
+
+(* what the walk does with the item that follows a table, for every value of the counter - as long as the walk goes
+   through: always before the fix (negref = false), with no negative counter after it *)
+Lemma after_table_with (negref : bool) (zdec : list N -> res Z) (ze : id -> Z) t r :
+  flat_odo t = true -> zcounters_hold zdec ze t r -> negref && has_neg ze (item_kids t) = false ->
+  exists v, znav_of_with negref zdec r (build t) = Ok v
     /\ forall x y c, consecutive (item_kids t) x y -> item_oc x = Odo c ->
          exists vx vy st en sz isz sub sch,
            znav_name v (KName (item_id x)) = Ok vx /\ znav_name v (KName (item_id y)) = Ok vy
@@ -555,9 +610,10 @@ Lemma after_table (zdec : list N -> res Z) (ze : id -> Z) t r :
            /\ en = (if st + isz * ze c =? 0 then st else st + isz * ze c)
            /\ zstart (zn_loc vy) = st + sz
            /\ (0 <= st -> isz = item_bytes x)
-           /\ (forall i, ze c <= i -> znav_index zdec r vx i = Err IndexError).
+           /\ (forall i, ze c <= i -> znav_index_with negref zdec r vx i = Err IndexError).
 Proof.
-  intros Hf Hc. exists (zflat_nav ze t). split; [apply znav_flat; assumption|].
+  intros Hf Hc Hgo. exists (zflat_nav ze t).
+  split; [rewrite (znav_flat_with negref zdec ze t r Hf Hc), Hgo; reflexivity|].
   destruct (SR.Proofs.OdoStreamP.flat_odo_inv t Hf) as (i0 & rd & kids & -> & Hk & Hnd).
   cbn [item_kids zflat_nav]. intros x y c Hxy Hoc.
   destruct (zfprops_consecutive ze (fun _ => True) kids 0 x y (NoDup_kid_ids kids Hnd) (fun _ _ _ _ => I) I Hxy)
@@ -582,15 +638,16 @@ Proof.
   split; [rewrite Sy; unfold zfsz; rewrite Ex; reflexivity|].
   split.
   - intros Ho. destruct (consecutive_in_items _ _ _ Hxy) as [Hix _].
-    destruct (in_items_flat kids [] x Hk Hix) as (earlier' & Hfx). apply (zocc_size_nonneg earlier' x o Hfx Hpx Ho) || apply (zocc_size_nonneg ze earlier' x o Hfx Hpx Ho).
+    destruct (in_items_flat kids [] x Hk Hix) as (earlier' & Hfx).
+    apply (zocc_size_nonneg earlier' x o Hfx Hpx Ho) || apply (zocc_size_nonneg ze earlier' x o Hfx Hpx Ho).
   - intros i Hi. rewrite znav_index_unf. cbn [zn_loc]. rewrite Ex.
     destruct (ze c <=? i) eqn:E; [rewrite orb_true_r; reflexivity|apply Z.leb_gt in E; lia].
 Qed.
 
-(* a NEGATIVE counter: the table has a negative length, the next item lies BEFORE the table, every index is refused *)
-Lemma negative_counter_layout (zdec : list N -> res Z) (ze : id -> Z) t r :
+(* BEFORE THE FIX, a NEGATIVE counter: the table has a negative length, the next item lies BEFORE the table, every index is refused *)
+Lemma negative_counter_layout_old (zdec : list N -> res Z) (ze : id -> Z) t r :
   flat_odo t = true -> zcounters_hold zdec ze t r ->
-  exists v, znav_of zdec r (build t) = Ok v
+  exists v, znav_of_with false zdec r (build t) = Ok v
     /\ forall x y c, consecutive (item_kids t) x y -> item_oc x = Odo c -> ze c < 0 ->
          exists vx vy st en sz isz sub sch,
            znav_name v (KName (item_id x)) = Ok vx /\ znav_name v (KName (item_id y)) = Ok vy
@@ -600,9 +657,9 @@ Lemma negative_counter_layout (zdec : list N -> res Z) (ze : id -> Z) t r :
                  sz = isz * ze c /\ en = st + isz * ze c /\ zstart (zn_loc vy) = st + ze c * isz
                  /\ (0 < isz -> zstart (zn_loc vy) < st))
            /\ (st + isz * ze c = 0 -> sz = 0 /\ en = st /\ zstart (zn_loc vy) = st)
-           /\ (forall i, znav_index zdec r vx i = Err IndexError).
+           /\ (forall i, znav_index_with false zdec r vx i = Err IndexError).
 Proof.
-  intros Hf Hc. destruct (after_table zdec ze t r Hf Hc) as (v & Hv & H). exists v. split; [exact Hv|].
+  intros Hf Hc. destruct (after_table_with false zdec ze t r Hf Hc eq_refl) as (v & Hv & H). exists v. split; [exact Hv|].
   intros x y c Hxy Hoc Hneg.
   destruct (H x y c Hxy Hoc) as (vx & vy & st & en & sz & isz & sub & sch & N1 & N2 & L & Hsz & Hen & Hy & Hisz & Hidx).
   exists vx, vy, st, en, sz, isz, sub, sch. repeat (split; [assumption|]).
@@ -615,17 +672,36 @@ Proof.
     destruct (ze c <=? i) eqn:E2; [reflexivity|apply Z.leb_gt in E2; lia].
 Qed.
 
-(* no counter negative: the property's sentence holds of the code *)
-Lemma item_after_table_nonneg (zdec : list N -> res Z) (ze : id -> Z) t r :
+(* NOW: a record in which some table's counter is negative is refused while the navigator is built - no item of it is
+   ever located, before the table or anywhere *)
+Lemma negative_counter_refused (zdec : list N -> res Z) (ze : id -> Z) t r :
+  flat_odo t = true -> zcounters_hold zdec ze t r ->
+  (exists x c, in_items x (item_kids t) /\ item_oc x = Odo c /\ ze c < 0) ->
+  znav_of zdec r (build t) = Err ValueError.
+Proof.
+  intros Hf Hc (x & c & Hin & Hoc & Hneg).
+  rewrite (znav_flat_now zdec ze t r Hf Hc), (has_neg_true ze (item_kids t) x c Hin Hoc Hneg). reflexivity.
+Qed.
+
+(* no counter negative: the property's sentence holds of the walk, with or without the sign test *)
+Lemma item_after_table_nonneg_with (negref : bool) (zdec : list N -> res Z) (ze : id -> Z) t r :
   flat_odo t = true -> zcounters_hold zdec ze t r ->
   (forall c, In c (counters_of (item_kids t)) -> 0 <= ze c) ->
-  exists v, znav_of zdec r (build t) = Ok v
+  exists v, znav_of_with negref zdec r (build t) = Ok v
     /\ forall x y c, consecutive (item_kids t) x y -> item_oc x = Odo c ->
          exists vx vy, znav_name v (KName (item_id x)) = Ok vx /\ znav_name v (KName (item_id y)) = Ok vy
            /\ 0 <= zstart (zn_loc vx)
            /\ zstart (zn_loc vy) = zstart (zn_loc vx) + occupied (ze c) * item_bytes x.
 Proof.
-  intros Hf Hc Hnn. exists (zflat_nav ze t). split; [apply znav_flat; assumption|].
+  intros Hf Hc Hnn. exists (zflat_nav ze t).
+  assert (Hno : has_neg ze (item_kids t) = false).
+  { destruct (has_neg ze (item_kids t)) eqn:E; [|reflexivity]. exfalso.
+    clear - E Hnn. revert E Hnn. generalize (item_kids t). induction i as [|x xs IH]; intros E Hnn; [discriminate|].
+    cbn [has_neg] in E. apply orb_prop in E as [E|E].
+    - unfold neg_count in E. destruct (item_oc x) as [|n|c] eqn:Eo; try discriminate. apply Z.ltb_lt in E.
+      assert (0 <= ze c) by (apply Hnn; cbn [counters_of]; rewrite Eo; left; reflexivity). lia.
+    - apply IH; [exact E|]. intros c Hc. apply Hnn. cbn [counters_of]. destruct (item_oc x); try exact Hc. right. exact Hc. }
+  split; [rewrite (znav_flat_with negref zdec ze t r Hf Hc), Hno, andb_false_r; reflexivity|].
   destruct (SR.Proofs.OdoStreamP.flat_odo_inv t Hf) as (i0 & rd & kids & -> & Hk & Hnd).
   cbn [item_kids zflat_nav] in *. intros x y c Hxy Hoc.
   assert (Hcnt : forall a, in_items a kids -> 0 <= zcount ze (item_oc a)).
@@ -648,7 +724,30 @@ Proof.
     unfold occupied. pose proof (Hnn c (in_items_counter kids x c Hix Hoc)). rewrite Z.max_r by lia. reflexivity.
 Qed.
 
-(* ================================================================== the witness of the refutation *)
+Lemma item_after_table_nonneg (zdec : list N -> res Z) (ze : id -> Z) t r :
+  flat_odo t = true -> zcounters_hold zdec ze t r ->
+  (forall c, In c (counters_of (item_kids t)) -> 0 <= ze c) ->
+  exists v, znav_of zdec r (build t) = Ok v
+    /\ forall x y c, consecutive (item_kids t) x y -> item_oc x = Odo c ->
+         exists vx vy, znav_name v (KName (item_id x)) = Ok vx /\ znav_name v (KName (item_id y)) = Ok vy
+           /\ 0 <= zstart (zn_loc vx)
+           /\ zstart (zn_loc vy) = zstart (zn_loc vx) + occupied (ze c) * item_bytes x.
+Proof. exact (item_after_table_nonneg_with odo_negative_refused zdec ze t r). Qed.
+
+(* the property's sentence, for EVERY count vector: refused, or the next item after the occupied elements *)
+Lemma item_after_table_refusing : item_after_table_statement_with true.
+Proof.
+  intros zdec ze t r Hf Hc. destruct (has_neg ze (item_kids t)) eqn:E.
+  - left. rewrite (znav_flat_with true zdec ze t r Hf Hc), E. reflexivity.
+  - right. destruct (item_after_table_nonneg_with true zdec ze t r Hf Hc (has_neg_false ze _ E)) as (v & Hv & H).
+    exists v. split; [exact Hv|]. intros x y c Hxy Hoc. destruct (H x y c Hxy Hoc) as (vx & vy & N1 & N2 & _ & Hst).
+    exists vx, vy. repeat split; assumption.
+Qed.
+
+Lemma item_after_table_proved : C06e_item_after_table_statement.
+Proof. unfold C06e_item_after_table_statement. rewrite negref_now. exact item_after_table_refusing. Qed.
+
+(* ================================================================== the witness of the refutation of the OLD rule *)
 Require Import SR.Model.Estruct SR.Model.ZonedCounter.
 Open Scope Z_scope.
 
@@ -659,15 +758,15 @@ Proof.
   repeat split; intros Hin; try (vm_compute; reflexivity); exfalso; cbn in Hin; destruct Hin as [E|[]]; discriminate.
 Qed.
 
-Lemma neg_witness_layout :
-  exists v vt vz, znav_of zcount_zoned neg_rec (build neg_tree) = Ok v
+Lemma neg_witness_layout_old :
+  exists v vt vz, znav_of_with false zcount_zoned neg_rec (build neg_tree) = Ok v
     /\ (zstart (zn_loc v), zend (zn_loc v), zsize (zn_loc v)) = (0, 1, 1)
     /\ znav_name v (KName 3%N) = Ok vt /\ (zstart (zn_loc vt), zend (zn_loc vt), zsize (zn_loc vt)) = (2, -2, -4)
     /\ znav_name v (KName 4%N) = Ok vz /\ (zstart (zn_loc vz), zend (zn_loc vz), zsize (zn_loc vz)) = (-2, 1, 3)
-    /\ znav_raw neg_rec vz = [] /\ znav_index zcount_zoned neg_rec vt 0 = Err IndexError.
+    /\ znav_raw neg_rec vz = [] /\ znav_index_with false zcount_zoned neg_rec vt 0 = Err IndexError.
 Proof.
   destruct neg_witness_holds as [Hf Hc].
-  pose proof (znav_flat zcount_zoned neg_ze neg_tree neg_rec Hf Hc) as Hv.
+  pose proof (znav_flat_old zcount_zoned neg_ze neg_tree neg_rec Hf Hc) as Hv.
   eexists. eexists. eexists. split; [exact Hv|].
   split; [vm_compute; reflexivity|].
   split; [vm_compute; reflexivity|]. split; [vm_compute; reflexivity|].
@@ -675,13 +774,35 @@ Proof.
   split; vm_compute; reflexivity.
 Qed.
 
-Lemma item_after_table_refuted : ~ C06e_item_after_table_statement.
+(* the same record NOW: refused *)
+Lemma neg_witness_refused : znav_of zcount_zoned neg_rec (build neg_tree) = Err ValueError.
+Proof.
+  destruct neg_witness_holds as [Hf Hc]. apply (negative_counter_refused zcount_zoned neg_ze neg_tree neg_rec Hf Hc).
+  exists neg_table, 2%N. split; [right; left; reflexivity|]. split; reflexivity.
+Qed.
+
+Lemma item_after_table_old_refuted : ~ C06e_item_after_table_statement_old.
 Proof.
   intros H. destruct neg_witness_holds as [Hf Hc].
-  destruct (H zcount_zoned neg_ze neg_tree neg_rec Hf Hc) as (v & Hv & Hall).
-  rewrite (znav_flat zcount_zoned neg_ze neg_tree neg_rec Hf Hc) in Hv. injection Hv as <-.
+  destruct (H zcount_zoned neg_ze neg_tree neg_rec Hf Hc) as [Hv|(v & Hv & Hall)];
+    rewrite (znav_flat_old zcount_zoned neg_ze neg_tree neg_rec Hf Hc) in Hv; [discriminate|]. injection Hv as <-.
   destruct (Hall neg_table neg_next 2%N) as (vx & vy & Nx & Ny & Hst).
   - right. left. split; reflexivity.
   - reflexivity.
   - vm_compute in Nx. vm_compute in Ny. injection Nx as <-. injection Ny as <-. vm_compute in Hst. discriminate.
 Qed.
+
+(* ================================================================== statements of Props/C06e.v about the walk before the fix *)
+Lemma after_table_old (zdec : list N -> res Z) (ze : id -> Z) t r :
+  flat_odo t = true -> zcounters_hold zdec ze t r ->
+  exists v, znav_of_with false zdec r (build t) = Ok v
+    /\ forall x y c, consecutive (item_kids t) x y -> item_oc x = Odo c ->
+         exists vx vy st en sz isz sub sch,
+           znav_name v (KName (item_id x)) = Ok vx /\ znav_name v (KName (item_id y)) = Ok vy
+           /\ zn_loc vx = ZArr st en sz isz (ze c) sub sch
+           /\ sz = (if st + isz * ze c =? 0 then 0 else isz * ze c)
+           /\ en = (if st + isz * ze c =? 0 then st else st + isz * ze c)
+           /\ zstart (zn_loc vy) = st + sz
+           /\ (0 <= st -> isz = item_bytes x)
+           /\ (forall i, ze c <= i -> znav_index_with false zdec r vx i = Err IndexError).
+Proof. intros Hf Hc. exact (after_table_with false zdec ze t r Hf Hc eq_refl). Qed.
